@@ -62,6 +62,14 @@ func init() {
 				Old: "name := tierName + \".*\"", New: "name := policyName + \".*\"", Expect: "C34.attrs/wildcard/Name"},
 			{Name: "policy check on the plain (not tier-scoped) resource", File: c34File,
 				Old: "tierScopedResource := \"tier.\" + attributes.GetResource()", New: "tierScopedResource := attributes.GetResource()", Expect: "C34.attrs/policy/Resource"},
+			{Name: "shared cancellable context: an Allow on the policy name aborts the sibling lookups", File: c34File,
+				Old:    "\twg := sync.WaitGroup{}\n" + c34IndepMid + "\t\t\tlogrus.Errorf(\"Error authorizing tiered policy request: %v\", err)\n\t\t}\n",
+				New:    "\tctx, cancel := context.WithCancel(ctx)\n\tdefer cancel()\n\twg := sync.WaitGroup{}\n" + c34IndepMid + "\t\t\tlogrus.Errorf(\"Error authorizing tiered policy request: %v\", err)\n\t\t}\n\t\tif decisionPolicy == k8sauth.DecisionAllow {\n\t\t\tcancel()\n\t\t}\n",
+				Expect: "C34.indep/getTier"},
+			{Name: "policy goroutine cancels the context it shares with the wildcard lookup when it is done", File: c34File,
+				Old:    "\tgo func() {\n\t\tdefer wg.Done()\n\t\tpath := pathPrefix\n",
+				New:    "\tctx, cancel := context.WithCancel(ctx)\n\tdefer cancel()\n\tgo func() {\n\t\tdefer wg.Done()\n\t\tdefer cancel()\n\t\tpath := pathPrefix\n",
+				Expect: "C34.indep/wildcard"},
 			{Name: "authorizer error turned into an allow decision", File: c34File,
 				Old: "\t\t\tlogrus.Errorf(\"Error authorizing tier wildcard request: %v\", err)\n", New: "\t\t\tdecisionTierWildcard = k8sauth.DecisionAllow\n", Expect: "C34.source/wildcard"},
 		},
@@ -75,6 +83,10 @@ const (
 	c34F3Mid  = "\t\tif err != nil {\n\t\t\tlogrus.Errorf(\"Error authorizing tiered policy request: %v\", err)\n\t\t}\n\t}()\n\tgo func() {\n\t\tdefer wg.Done()\n\t\tname := tierName + \".*\"\n\t\tpath := pathPrefix + \"/\" + name\n\t\tattrs := k8sauth.AttributesRecord{\n\t\t\tUser:            attributes.GetUser(),\n\t\t\tVerb:            attributes.GetVerb(),\n\t\t\tNamespace:       attributes.GetNamespace(),\n\t\t\tAPIGroup:        attributes.GetAPIGroup(),\n\t\t\tAPIVersion:      attributes.GetAPIVersion(),\n\t\t\tResource:        tierScopedResource,\n\t\t\tSubresource:     attributes.GetSubresource(),\n\t\t\tName:            name,\n\t\t\tResourceRequest: true,\n\t\t\tPath:            path,\n\t\t}\n\n\t\tlogrus.Trace(\"Checking authorization using tier scoped resource type (tier name match)\")\n\t\tlogAuthorizerAttributes(attrs)\n"
 	c34F3Tail = "\t\tdecisionTierWildcard, _, err = a.Authorize(ctx, attrs)"
 )
+
+// Text between the WaitGroup declaration and the end of the policy goroutine's
+// error branch (the shared-context fixture replaces one contiguous region).
+const c34IndepMid = "\twg.Add(3)\n\n\t// Query GET access for the tier.\n\tvar decisionGetTier k8sauth.Decision\n\tgo func() {\n\t\tdefer wg.Done()\n\t\tattrs := k8sauth.AttributesRecord{\n\t\t\tUser:            attributes.GetUser(),\n\t\t\tVerb:            \"get\",\n\t\t\tNamespace:       \"\",\n\t\t\tAPIGroup:        attributes.GetAPIGroup(),\n\t\t\tAPIVersion:      attributes.GetAPIVersion(),\n\t\t\tResource:        \"tiers\",\n\t\t\tSubresource:     \"\",\n\t\t\tName:            tierName,\n\t\t\tResourceRequest: true,\n\t\t\tPath:            \"/apis/projectcalico.org/v3/tiers/\" + tierName,\n\t\t}\n\n\t\tlogrus.Trace(\"Checking authorization using tier resource type (user can get tier)\")\n\t\tlogAuthorizerAttributes(attrs)\n\t\tvar reason string\n\t\tvar err error\n\t\tdecisionGetTier, reason, err = a.Authorize(ctx, attrs)\n\t\tif err != nil {\n\t\t\tlogrus.WithField(\"reason\", reason).Errorf(\"Error authorizing tier GET request: %v\", err)\n\t\t}\n\t}()\n\n\t// Query required access to the tiered policy resource or tier wildcard resource.\n\tvar decisionPolicy, decisionTierWildcard k8sauth.Decision\n\tvar pathPrefix string\n\ttierScopedResource := \"tier.\" + attributes.GetResource()\n\tif attributes.GetNamespace() == \"\" {\n\t\tpathPrefix = \"/apis/projectcalico.org/v3/\" + tierScopedResource\n\t} else {\n\t\tpathPrefix = \"/apis/projectcalico.org/v3/namespaces/\" + attributes.GetNamespace() + \"/\" + tierScopedResource\n\t}\n\tgo func() {\n\t\tdefer wg.Done()\n\t\tpath := pathPrefix\n\t\tif attributes.GetName() != \"\" {\n\t\t\tpath = pathPrefix + \"/\" + attributes.GetName()\n\t\t}\n\t\tattrs := k8sauth.AttributesRecord{\n\t\t\tUser:            attributes.GetUser(),\n\t\t\tVerb:            attributes.GetVerb(),\n\t\t\tNamespace:       attributes.GetNamespace(),\n\t\t\tAPIGroup:        attributes.GetAPIGroup(),\n\t\t\tAPIVersion:      attributes.GetAPIVersion(),\n\t\t\tResource:        tierScopedResource,\n\t\t\tSubresource:     attributes.GetSubresource(),\n\t\t\tName:            attributes.GetName(),\n\t\t\tResourceRequest: true,\n\t\t\tPath:            path,\n\t\t}\n\n\t\tlogrus.Trace(\"Checking authorization using tier scoped resource type (policy name match)\")\n\t\tlogAuthorizerAttributes(attrs)\n\t\tvar err error\n\t\tdecisionPolicy, _, err = a.Authorize(ctx, attrs)\n\t\tif err != nil {\n"
 
 var c34Fields = []string{"User", "Verb", "Namespace", "APIGroup", "Resource", "Subresource", "Name", "ResourceRequest"}
 var c34Roles = []string{"getTier", "policy", "wildcard"}
@@ -107,6 +119,7 @@ func runC34(c *Ctx) {
 	c.Rule("C34.race", "E-RACE", "AuthorizeTierOperation: no captured variable written by a goroutine is accessed by another goroutine or by the spawning function before the wg.Wait that joins the writer; Add/Done/Wait are balanced", 3)
 	c.Rule("C34.formula", "E-TABLE", "symbolic execution after wg.Wait over all decision values: nil is returned iff getTier==Allow && (policy==Allow || wildcard==Allow); no other unguarded `return nil`", 2)
 	c.Rule("C34.source", "E-FLOW", "each decision variable has exactly one store, unconditional, of result #0 of Authorizer.Authorize", 3)
+	c.Rule("C34.indep", "E-EFFECT/E-TABLE", "the three lookups are independent: the ctx given to each Authorize call derives from the ctx parameter, and a cancel function of a context it derives from is never invoked by another goroutine (or by the spawning function before the join) in a situation where the decision table still depends on that lookup", 3)
 	c.Rule("C34.attrs", "E-FLOW", "fields of the AttributesRecord literal of each Authorize call equal the expected symbolic value for its role", 24)
 
 	fn := p.Func(c34Pkg, "authorizer.AuthorizeTierOperation")
@@ -206,6 +219,411 @@ func runC34(c *Ctx) {
 		}
 		c34Source(c, p, fn, res, "C34.source/"+role, s)
 	}
+	c34Indep(c, p, fn, res, sym, sites, best, table, tableErr)
+}
+
+// ------------------------------------------------------------ independence --
+
+func c34IsCtx(t types.Type) bool { return qualTypeName(t) == "context.Context" }
+
+func c34IsCancelFunc(t types.Type) bool {
+	switch qualTypeName(t) {
+	case "context.CancelFunc", "context.CancelCauseFunc":
+		return true
+	}
+	return false
+}
+
+// c34CtxOrigins resolves a context value to the parameters it derives from and
+// the derivation calls that return a cancel function next to the context
+// (context.WithCancel/WithTimeout/WithDeadline/WithCancelCause or a wrapper with
+// the same result shape), transitively through parent contexts.
+func c34CtxOrigins(sym *c34SymT, v ssa.Value) (params []*ssa.Parameter, derivs []*ssa.Call, unknown []string) {
+	seen := map[ssa.Value]bool{}
+	var walk func(v ssa.Value)
+	parents := func(call *ssa.Call) {
+		for _, a := range call.Call.Args {
+			if c34IsCtx(a.Type()) {
+				walk(a)
+			}
+		}
+	}
+	walk = func(v ssa.Value) {
+		if v == nil || seen[v] {
+			return
+		}
+		seen[v] = true
+		switch x := v.(type) {
+		case *ssa.Parameter:
+			params = append(params, x)
+		case *ssa.MakeInterface:
+			walk(x.X)
+		case *ssa.ChangeInterface:
+			walk(x.X)
+		case *ssa.ChangeType:
+			walk(x.X)
+		case *ssa.Phi:
+			for _, e := range x.Edges {
+				walk(e)
+			}
+		case *ssa.UnOp:
+			if x.Op != token.MUL {
+				unknown = append(unknown, path(v))
+				return
+			}
+			r := sym.root(x.X)
+			if r == nil {
+				unknown = append(unknown, path(v))
+				return
+			}
+			if seen[r] {
+				return
+			}
+			seen[r] = true
+			if len(sym.stores[r]) == 0 {
+				unknown = append(unknown, path(v)+" (never assigned)")
+			}
+			for _, st := range sym.stores[r] {
+				walk(st.Val)
+			}
+		case *ssa.Extract:
+			call, ok := x.Tuple.(*ssa.Call)
+			if !ok {
+				unknown = append(unknown, path(v))
+				return
+			}
+			hasCancel := false
+			if tup, ok := call.Type().(*types.Tuple); ok {
+				for i := 0; i < tup.Len(); i++ {
+					if c34IsCancelFunc(tup.At(i).Type()) {
+						hasCancel = true
+					}
+				}
+			}
+			if !hasCancel || calleeOf(call.Common()) == nil {
+				unknown = append(unknown, path(v))
+				return
+			}
+			derivs = append(derivs, call)
+			parents(call)
+		case *ssa.Call:
+			// a derivation without a cancel function (WithValue, WithoutCancel, Background...)
+			if calleeOf(x.Common()) == nil || !c34IsCtx(x.Type()) {
+				unknown = append(unknown, path(v))
+				return
+			}
+			parents(x)
+		default:
+			unknown = append(unknown, path(v))
+		}
+	}
+	walk(v)
+	return
+}
+
+// c34CancelUse is one use of the cancel function of a derivation call.
+type c34CancelUse struct {
+	in      ssa.Instruction // the invoking instruction (Call/Defer/Go); nil = escapes
+	escapes string
+}
+
+// c34CancelUses lists every invocation of the cancel function returned by deriv
+// (directly or through the variable it is stored into, in the function and all
+// its closures); any other use of the function value is reported as an escape.
+func c34CancelUses(sym *c34SymT, deriv *ssa.Call) []c34CancelUse {
+	var out []c34CancelUse
+	var vals []ssa.Value // values that are the cancel function
+	roots := map[ssa.Value]bool{}
+	if deriv.Referrers() == nil {
+		return nil
+	}
+	for _, r := range *deriv.Referrers() {
+		ex, ok := r.(*ssa.Extract)
+		if !ok || !c34IsCancelFunc(ex.Type()) {
+			continue
+		}
+		vals = append(vals, ex)
+	}
+	useOf := func(v ssa.Value) {
+		refs := v.Referrers()
+		if refs == nil {
+			return
+		}
+		for _, r := range *refs {
+			switch x := r.(type) {
+			case *ssa.DebugRef:
+			case *ssa.Store:
+				if x.Val == v {
+					if root := sym.root(x.Addr); root != nil {
+						roots[root] = true
+					} else {
+						out = append(out, c34CancelUse{escapes: "stored to " + path(x.Addr)})
+					}
+				}
+			case ssa.CallInstruction:
+				if x.Common().Value == v && !x.Common().IsInvoke() {
+					out = append(out, c34CancelUse{in: x})
+				} else {
+					out = append(out, c34CancelUse{escapes: "passed to " + path(x.Common().Value)})
+				}
+			default:
+				out = append(out, c34CancelUse{escapes: fmt.Sprintf("used by %T", r)})
+			}
+		}
+	}
+	for _, v := range vals {
+		useOf(v)
+	}
+	// loads of the variables holding the function, anywhere in the family
+	for _, f := range withClosures([]*ssa.Function{sym.top}) {
+		allInstrs(f, false, func(_ *ssa.Function, in ssa.Instruction) {
+			ld, ok := in.(*ssa.UnOp)
+			if !ok || ld.Op != token.MUL {
+				return
+			}
+			if r := sym.root(ld.X); r != nil && roots[r] {
+				useOf(ld)
+			}
+		})
+	}
+	// a variable holding the cancel function that is also assigned something else is fine (over-approximation)
+	return out
+}
+
+func c34DecisionName(p *Prog, cv constant.Value) string {
+	o := p.LookupExt(c34AuthPkg, "DecisionAllow")
+	decT := p.LookupExt(c34AuthPkg, "Decision")
+	if o == nil || decT == nil {
+		return ""
+	}
+	sc := o.Pkg().Scope()
+	for _, n := range sc.Names() {
+		if k, ok := sc.Lookup(n).(*types.Const); ok && types.Identical(k.Type(), decT.Type()) && constant.Compare(k.Val(), token.EQL, cv) {
+			return n
+		}
+	}
+	return ""
+}
+
+// c34Indep: see the rule text.  sites[best[ri]] is the site of role c34Roles[ri].
+func c34Indep(c *Ctx, p *Prog, fn *ssa.Function, res *raceResult, sym *c34SymT, sites []*c34Site, best [3]int, table *c34TableT, tableErr string) {
+	threadOf := func(in ssa.Instruction) int {
+		for g := in.Parent(); g != nil; g = g.Parent() {
+			for _, th := range res.Threads {
+				if th.Fn == g {
+					return th.Idx
+				}
+			}
+			if g == fn {
+				return -1
+			}
+		}
+		return -2
+	}
+	roleOfSite := map[int]string{}
+	for ri, role := range c34Roles {
+		roleOfSite[best[ri]] = role
+	}
+	siteOfThread := map[int]int{}
+	for i, s := range sites {
+		siteOfThread[threadOf(s.call)] = i
+	}
+	var waits []ssa.Instruction
+	for _, ws := range res.Waits {
+		waits = append(waits, ws...)
+	}
+	afterJoin := func(in ssa.Instruction) bool {
+		for _, w := range waits {
+			if instrDominates(w, in) {
+				return true
+			}
+		}
+		return false
+	}
+	// decision-table query: can aborting lookup x (its Allow becomes something else)
+	// turn an allowed request into a refused one, in a row satisfying cons?
+	type cons struct {
+		site int
+		name string
+		eq   bool
+	}
+	rowKey := func(vals []string) string { return strings.Join(vals, ",") }
+	harmful := func(x int, cs []cons) string {
+		if table == nil {
+			return ""
+		}
+		byKey := map[string]c34Row{}
+		names := map[string]bool{}
+		for _, r := range table.rows {
+			byKey[rowKey(r.vals)] = r
+			names[r.vals[x]] = true
+		}
+	rows:
+		for _, r := range table.rows {
+			if !r.allow || r.vals[x] != table.allowName {
+				continue
+			}
+			for _, k := range cs {
+				if (r.vals[k.site] == k.name) != k.eq {
+					continue rows
+				}
+			}
+			for alt := range names {
+				if alt == table.allowName {
+					continue
+				}
+				v2 := append([]string{}, r.vals...)
+				v2[x] = alt
+				if r2, ok := byKey[rowKey(v2)]; ok && !r2.allow {
+					var parts []string
+					for i, v := range r.vals {
+						parts = append(parts, roleOfSite[i]+"="+v)
+					}
+					sort.Strings(parts)
+					return strings.Join(parts, " ")
+				}
+			}
+		}
+		return ""
+	}
+	// constraints on the decision values known where `in` executes
+	consAt := func(in ssa.Instruction) []cons {
+		var out []cons
+		for _, g := range guardsOf(in) {
+			bo, ok := g.Cond.(*ssa.BinOp)
+			if !ok || (bo.Op != token.EQL && bo.Op != token.NEQ) {
+				continue
+			}
+			for _, pr := range [][2]ssa.Value{{bo.X, bo.Y}, {bo.Y, bo.X}} {
+				ld, ok := pr[0].(*ssa.UnOp)
+				cv, isC := constOf(pr[1])
+				if !ok || ld.Op != token.MUL || !isC {
+					continue
+				}
+				root := sym.root(ld.X)
+				for i, s := range sites {
+					if root == nil || s.decVar != root {
+						continue
+					}
+					// the value read is the lookup's answer only after its (single) store in this thread
+					stored := false
+					for _, st := range sym.stores[root] {
+						if st.Parent() == ld.Parent() && instrDominates(st, ld) {
+							stored = true
+						}
+					}
+					if n := c34DecisionName(p, cv); stored && n != "" && threadOf(ld) == threadOf(s.call) {
+						out = append(out, cons{i, n, (bo.Op == token.EQL) == g.True})
+					}
+				}
+			}
+		}
+		return out
+	}
+
+	for i, s := range sites {
+		role := roleOfSite[i]
+		key := "C34.indep/" + role
+		at := p.Pos(s.call.Pos())
+		args := s.call.Call.Args
+		if len(args) != 2 || !c34IsCtx(args[0].Type()) {
+			c.Lost("Authorize call at %s does not take (ctx, attributes)", at)
+		}
+		params, derivs, unknown := c34CtxOrigins(sym, args[0])
+		if len(unknown) > 0 {
+			c.Undecided(key, at, "the context passed to the %s lookup derives from %v: cannot decide who may cancel it", role, unknown)
+			continue
+		}
+		bad, und := "", ""
+		for _, pr := range params {
+			if pr.Parent() != fn || sym.params[pr] == "" || !c34IsCtx(pr.Type()) {
+				und = "context derives from " + path(pr) + ", which is not the request context parameter"
+			}
+		}
+		if len(params) == 0 {
+			bad = fmt.Sprintf("the context passed to the %s lookup does not derive from the function's ctx parameter (request deadline and values are lost)", role)
+		}
+		me := threadOf(s.call)
+		for _, d := range derivs {
+			for _, u := range c34CancelUses(sym, d) {
+				if u.in == nil {
+					und = fmt.Sprintf("the cancel function of %s (%s) %s: cannot decide when it is invoked", calleeOf(d.Common()).Name(), p.Pos(d.Pos()), u.escapes)
+					continue
+				}
+				th := threadOf(u.in)
+				_, deferred := u.in.(*ssa.Defer)
+				var cs []cons
+				who := ""
+				switch {
+				case th == me:
+					continue // a lookup may give up its own context (siblings sharing it are checked at their own site)
+				case th == -1 && deferred && u.in.Parent() == fn:
+					// runs when the spawning function returns: after the join iff every return reachable from the spawn is
+					ok := true
+					for _, r := range c34Returns(fn) {
+						if instrReaches(s.goInstr(res), r.Return) && !afterJoin(r.Return) {
+							ok = false
+						}
+					}
+					if ok {
+						continue
+					}
+					who = "the spawning function's deferred call (a return before the join)"
+				case th == -1:
+					if afterJoin(u.in) {
+						continue
+					}
+					who = "the spawning function, before the join,"
+				case th >= 0:
+					cs = consAt(u.in)
+					who = "the goroutine of the " + roleOfSite[siteOfThread[th]] + " lookup"
+				default:
+					und = "cancel function invoked at " + p.Pos(u.in.Pos()) + " in a function the engine cannot place"
+					continue
+				}
+				if tableErr != "" {
+					und = "the decision table is undecided, so the effect of the cancellation at " + p.Pos(u.in.Pos()) + " cannot be evaluated"
+					continue
+				}
+				if row := harmful(i, cs); row != "" {
+					var ctext []string
+					for _, k := range cs {
+						op := "=="
+						if !k.eq {
+							op = "!="
+						}
+						ctext = append(ctext, roleOfSite[k.site]+op+k.name)
+					}
+					when := "unconditionally"
+					if len(ctext) > 0 {
+						when = "when " + strings.Join(ctext, " && ")
+					}
+					bad = fmt.Sprintf("the %s lookup runs under a context from %s (%s) whose cancel function is invoked by %s at %s %s, while the lookup may still be in flight; a context-honouring authorizer then aborts it, and for %s (allowed) the request is refused: the outcome depends on which lookup answers first",
+						role, calleeOf(d.Common()).Name(), p.Pos(d.Pos()), who, p.Pos(u.in.Pos()), when, row)
+				}
+			}
+		}
+		switch {
+		case bad != "":
+			c.Violate(key, at, "%s", bad)
+		case und != "":
+			c.Undecided(key, at, "%s", und)
+		default:
+			c.Ok(key, at, "ctx derives from the ctx parameter (%d cancellable derivation(s)); no concurrent thread cancels it while the decision table depends on this lookup", len(derivs))
+		}
+	}
+}
+
+// goInstr: the go statement (or group.Go call) of the thread the site's call runs in.
+func (s *c34Site) goInstr(res *raceResult) ssa.Instruction {
+	for g := s.call.Parent(); g != nil; g = g.Parent() {
+		for _, th := range res.Threads {
+			if th.Fn == g {
+				return th.Spawn
+			}
+		}
+	}
+	return s.call
 }
 
 func c34ReportRace(c *Ctx, p *Prog, key, site string, res *raceResult) {
@@ -727,6 +1145,14 @@ func (it *c34Interp) run(fn *ssa.Function, b *ssa.BasicBlock, start int, params 
 			case *ssa.Store:
 				if r := it.memRoot(x.Addr); r != nil {
 					it.mem[r] = get(x.Val)
+				} else if al, ok := x.Addr.(*ssa.Alloc); ok && al.Parent() == fn {
+					// a local of the executed function (e.g. the synthetic result
+					// variable go/ssa introduces when the function has a defer)
+					it.mem[al] = get(x.Val)
+				}
+			case *ssa.RunDefers:
+				if why := c34DefersTouchResults(fn); why != "" {
+					return nil, why
 				}
 			case *ssa.BinOp:
 				l, lok := get(x.X).(constant.Value)
@@ -804,6 +1230,77 @@ func (it *c34Interp) run(fn *ssa.Function, b *ssa.BasicBlock, start int, params 
 	}
 }
 
+// c34ResultAllocs: the variables the function's returns load their results from
+// (named results, or the synthetic result variable of a function with defers).
+func c34ResultAllocs(fn *ssa.Function) map[*ssa.Alloc]bool {
+	out := map[*ssa.Alloc]bool{}
+	for _, r := range returnsOf(fn) {
+		for _, v := range r.Results {
+			if ld, ok := v.(*ssa.UnOp); ok && ld.Op == token.MUL {
+				if al, ok := ld.X.(*ssa.Alloc); ok {
+					out[al] = true
+				}
+			}
+		}
+	}
+	return out
+}
+
+// c34DefersTouchResults: a deferred closure that captures a result variable can
+// change what the function returns after the return statement has stored it.
+func c34DefersTouchResults(fn *ssa.Function) string {
+	res := c34ResultAllocs(fn)
+	why := ""
+	allInstrs(fn, false, func(_ *ssa.Function, in ssa.Instruction) {
+		d, ok := in.(*ssa.Defer)
+		if !ok {
+			return
+		}
+		if mc, ok := d.Call.Value.(*ssa.MakeClosure); ok {
+			for _, b := range mc.Bindings {
+				if al, ok := b.(*ssa.Alloc); ok && res[al] {
+					why = "a deferred closure captures the result variable: the returned value is not decided by the return statement"
+				}
+			}
+		}
+	})
+	return why
+}
+
+// c34Ret is a return of fn with its results resolved through result variables
+// (the value stored last in the returning block); go/ssa's synthetic recover
+// block is skipped (it is only reached when a deferred call recovers a panic).
+type c34Ret struct {
+	*ssa.Return
+	Vals []ssa.Value
+}
+
+func c34Returns(fn *ssa.Function) []c34Ret {
+	var out []c34Ret
+	for _, r := range returnsOf(fn) {
+		if fn.Recover != nil && r.Block() == fn.Recover {
+			continue
+		}
+		cr := c34Ret{Return: r}
+		for _, v := range r.Results {
+			if ld, ok := v.(*ssa.UnOp); ok && ld.Op == token.MUL {
+				if al, ok := ld.X.(*ssa.Alloc); ok {
+					instrs := r.Block().Instrs
+					for i := instrIndex(ld) - 1; i >= 0; i-- {
+						if st, ok := instrs[i].(*ssa.Store); ok && st.Addr == ssa.Value(al) {
+							v = st.Val
+							break
+						}
+					}
+				}
+			}
+			cr.Vals = append(cr.Vals, v)
+		}
+		out = append(out, cr)
+	}
+	return out
+}
+
 func (it *c34Interp) memRoot(addr ssa.Value) ssa.Value {
 	if _, ok := it.mem[addr]; ok {
 		return addr
@@ -846,13 +1343,16 @@ func c34AllowExits(c *Ctx, p *Prog, fn *ssa.Function, res *raceResult) {
 	}
 	var bad, und []string
 	nCovered, nGuarded := 0, 0
-	for _, r := range returnsOf(fn) {
-		if len(r.Results) != 1 {
+	if why := c34DefersTouchResults(fn); why != "" {
+		und = append(und, why)
+	}
+	for _, r := range c34Returns(fn) {
+		if len(r.Vals) != 1 {
 			c.Lost("%s does not return exactly one result", fnName(fn))
 		}
 		covered := false
 		for _, w := range waits {
-			if instrDominates(w, r) {
+			if instrDominates(w, r.Return) {
 				covered = true
 			}
 		}
@@ -860,12 +1360,12 @@ func c34AllowExits(c *Ctx, p *Prog, fn *ssa.Function, res *raceResult) {
 			nCovered++
 			continue
 		}
-		switch v := r.Results[0].(type) {
+		switch v := r.Vals[0].(type) {
 		case *ssa.Const:
 			if v.Value != nil {
 				continue
 			}
-			g := guardedCut(r, eqCond(true,
+			g := guardedCut(r.Return, eqCond(true,
 				func(x ssa.Value) bool { return fieldVar(x) == authzField },
 				isNilConst))
 			if g {
